@@ -578,6 +578,76 @@ theorem C20_interval_text_ending_in_TO :
     temporalCheck .interval "1-6 YEAR TO".toUTF8.toList ≠ .error .panic :=
   temporalCheck_noPanic _ _
 
+/-! ### the index rebuild at the end of the load: prefix truncation is total for every length -/
+
+/-- a prefix of 0 characters is the empty string (for a string that starts with a character) -/
+theorem C20_prefix_zero_is_empty (b : UInt8) (r : Bytes) (h : Temporal.isCont b = false) :
+    takeChars 0 (b :: r) = [] := by
+  simp [takeChars, h]
+
+/-- whatever the prefix length, the key is a prefix of the stored string (never out of range) -/
+theorem C20_takeChars_is_prefix (n : Nat) (s : Bytes) : takeChars n s <+: s := by
+  induction s generalizing n with
+  | nil => simp [takeChars]
+  | cons b r ih =>
+    unfold takeChars
+    split
+    · exact List.prefix_cons_inj b |>.mpr (ih n)
+    · cases n with
+      | zero => exact List.nil_prefix
+      | succ m => exact List.prefix_cons_inj b |>.mpr (ih m)
+
+theorem mapE_ne_panic {α β : Type} (g : α → Except Err β) (h : ∀ x, g x ≠ .error .panic) (xs : List α) :
+    mapE g xs ≠ .error .panic := by
+  induction xs with
+  | nil => intro hh; cases hh
+  | cons a l ih =>
+    unfold mapE
+    cases hg : g a with
+    | error e =>
+      intro hh
+      have : e = .panic := by injection hh
+      exact h a (by rw [hg, this])
+    | ok b =>
+      cases hl : mapE g l with
+      | error e =>
+        intro hh
+        have : e = .panic := by injection hh
+        exact ih (by rw [hl, this])
+      | ok bs => intro hh; cases hh
+
+theorem buildIndex_ne_panic (f : FileContent) (i : IdxDef) : buildIndex f i ≠ .error .panic := by
+  unfold buildIndex
+  split
+  · intro h; cases h
+  · next t _ =>
+    have h1 := mapE_ne_panic (fun c : IdxCol => match colPos t c.name with
+        | some p => (.ok (p, c.pfx) : Except Err (Nat × Option Nat))
+        | none => .error .columnNotFound) (by intro c; split <;> (intro h; cases h)) i.cols
+    split
+    · next e he => intro h; injection h with h; subst h; exact h1 he
+    · next pos _ =>
+      have h2 := mapE_ne_panic (fun r : Row => mapE (fun (pp : Nat × Option Nat) => match r[pp.1]? with
+          | some v => (.ok (applyPrefix pp.2 v) : Except Err BVal)
+          | none => .error .columnNotFound) pos)
+        (fun r => mapE_ne_panic _ (by intro pp; split <;> (intro h; cases h)) pos)
+        (((f.data.filter (fun d => upper d.name == upper t.name)).map (·.rows)).flatten)
+      dsimp only
+      split
+      · next e he => intro h; injection h with h; subst h; exact h2 he
+      · intro h; cases h
+
+/-- **the index rebuild never panics**, whatever prefix lengths (0 and 2^64-1 included), column
+    names and table names the file declares: it builds the keys or fails with an error -/
+theorem C20_index_rebuild_never_panics (f : FileContent) : rebuildIndexes f ≠ .error .panic :=
+  mapE_ne_panic _ (buildIndex_ne_panic f) _
+
+/-- loader and rebuild together: for every byte string, neither step ends in `panic` -/
+theorem C20_load_and_rebuild_never_panic (b : Bytes) :
+    (loadFile b).res ≠ .error .panic ∧
+    ∀ f rest, (loadFile b).res = .ok (f, rest) → rebuildIndexes f ≠ .error .panic :=
+  ⟨C20_load_never_panics b, fun f _ _ => C20_index_rebuild_never_panics f⟩
+
 /-! ### column type texts read from a (possibly damaged) catalog: `parse_data_type`
 
 `parseDataType` (Model/BinTypes.lean) is total by construction: every branch of the code uses
